@@ -54,7 +54,7 @@ def run(tier, seed, replay=None):
     l1 = layer1_cases(rng, tier)
     impl_r, mcases = [], []
     for s, k in l1:
-        for scale, dt in ((1.0, np.float64), (0.5, np.float64), (1.0, np.float32)):
+        for scale, dt in ((1.0, np.float64), (0.5, np.float64), (1.0, np.float32), (2.0 ** -70, np.float64), (2.0 ** -30, np.float32)):
             try:
                 r = int(D.rank_chop(np.array(s, dtype=dt) * dt(scale), float(k) * scale))
             except Exception as ex:
@@ -94,6 +94,9 @@ def run(tier, seed, replay=None):
             case = gen_case(rng, i)
             rec.clear()
             A, shape, eps, rmax, dtype, src, family = case
+            if i % 4 == 3 and family != "tie":          # the contract is relative: tiny and huge absolute scales
+                sc = rng.choice([1e-30, 1e-18, 1e-9, 1e9, 1e20]) if dtype not in (torch.float32, torch.complex64) else rng.choice([1e-12, 1e-6, 1e6])
+                A = np.asarray(A) * sc; family += "-scaled"
             dist[family] = dist.get(family, 0) + 1
             desc = {"family": family, "shape": shape, "eps": eps, "rmax": rmax, "dtype": str(dtype), "source": src}
             if len(samples) < 5 and i % 40 == 0: samples.append(desc)
